@@ -257,7 +257,7 @@ PROPS["C08"] = _bisync({
     "Archive::save": "the record is written to <path>.tmp, flushed, then renamed; on any error the live record holds the old bytes, is absent, or is the complete new record",
     "run_bisync": "once the archive has been renamed into place no further rename into either tree happens; apply's renames all land inside the trees; an error in any apply returns before the archive is touched",
 }, ignore={"run_bisync": [r"record_ok", r"conflict_names_free", r"conflict_name_not_planned"]},
-   only_re=r"\(C08\)|crashed", not_decided=["'running bisync again after the crash converges' is a statement about a second run; not decided (history-level)"])
+   only_re=r"\(C08[):]|crashed", not_decided=["'running bisync again after the crash converges' is a statement about a second run; not decided (history-level)"])
 PROPS["C08"]["twins"].append(dict(name="bisync_crashes", repo_fn="src/bin/copia/bidir.rs run_bisync (crash points)", quick=3, thorough=120, needs_cli=True,
     contract="`copia bisync` on the real binary killed right before EVERY one of its file-system write calls (ptrace supervisor), two setups (after a first sync: create, propagate both ways, delete, both-changed conflict, delete-vs-modify, nested path; and a first run without archive): every live path holds a complete version that existed before the run, the archive on disk is the old one, absent, or a complete new one whose every entry is in place on both sides; running bisync again (up to 3 times) yields the trees of an uninterrupted run",
     bounded="the two-run clause of C08 ('running bisync again after the crash converges to the uninterrupted result') has no contract (it is a statement about a second process run); this enumeration stands in. Bound: 2 setups (9 + 5 paths, all seven action kinds), every kill point (56 + 44 on the pinned tree; quick: every point up to 30 then every 2nd), process kill (not power loss)"))
